@@ -355,6 +355,8 @@ pub struct World {
     pub orphaned: Vec<BlockRec>,
     pub notes: BTreeMap<u32, NoteInfo>,
     pub rng: ChaChaRng,
+    /// wallet-owned Sapling outputs re-mined at another tree position (nullifier changed)
+    pub renullified: usize,
     genesis: ChainState,
     genesis_hash: u32,
 }
@@ -445,6 +447,7 @@ impl World {
             orphaned: vec![],
             notes: BTreeMap::new(),
             rng,
+            renullified: 0,
             genesis,
             genesis_hash,
         }
@@ -636,7 +639,11 @@ impl World {
                     let scope = if o.internal { zip32::Scope::Internal } else { zip32::Scope::External };
                     let bytes = sapling_nf(&self.accts[a].sapling, scope, &ctx.outputs[o.idx as usize], sap_size + o.idx);
                     info.bytes = bytes;
-                    o.nf = self.ids.nf(Pool::Sapling, bytes);
+                    let new_id = self.ids.nf(Pool::Sapling, bytes);
+                    if new_id != o.nf {
+                        self.renullified += 1;
+                    }
+                    o.nf = new_id;
                 }
                 self.notes.insert(o.nf, info);
             }
